@@ -186,3 +186,105 @@ def _show(out) -> str:
     parts += [f"{k}={t}" for k, t in finals]
     parts += list(eff)
     return " | ".join(parts)[:300]
+
+
+# ---------------------------------------------------------------------- dictionary idiom: d.get(k, default)  vs  `k in d` / d[k]
+class _GetSplit(ast.NodeTransformer):
+    def __init__(self, recv: str, key: str, present: bool):
+        self.recv, self.key, self.present = recv, key, present
+
+    def visit_Call(self, n):
+        self.generic_visit(n)
+        if isinstance(n.func, ast.Attribute) and n.func.attr == "get" and len(n.args) == 2 and not n.keywords \
+                and ast.unparse(n.func.value) == self.recv and ast.unparse(n.args[0]) == self.key:
+            if self.present:
+                return ast.Subscript(value=n.func.value, slice=n.args[0], ctx=ast.Load())
+            return n.args[1]
+        return n
+
+
+class _Simplify(ast.NodeTransformer):
+    """{}.keys() / {}.get(k, d) / {*()} / x | set() / x + 0"""
+
+    def visit_Call(self, n):
+        self.generic_visit(n)
+        if isinstance(n.func, ast.Attribute) and isinstance(n.func.value, ast.Dict) and not n.func.value.keys:
+            if n.func.attr in ("keys", "values", "items") and not n.args:
+                return ast.Tuple(elts=[], ctx=ast.Load())
+            if n.func.attr == "get" and len(n.args) == 2:
+                return n.args[1]
+        return n
+
+    def visit_Set(self, n):
+        self.generic_visit(n)
+        elts = [e for e in n.elts if not (isinstance(e, ast.Starred) and isinstance(e.value, ast.Tuple) and not e.value.elts)]
+        if not elts:
+            return ast.Call(func=ast.Name(id="set", ctx=ast.Load()), args=[], keywords=[])
+        n.elts = elts
+        return n
+
+    def visit_BoolOp(self, n):
+        # `acc |= x` is folded by the path view into `acc or x`
+        self.generic_visit(n)
+        if isinstance(n.op, ast.Or):
+            vals = [v for v in n.values if ast.unparse(v) != "set()"]
+            if len(vals) == 1:
+                return vals[0]
+            n.values = vals or n.values
+        return n
+
+    def visit_BinOp(self, n):
+        self.generic_visit(n)
+        empty_set = isinstance(n.right, ast.Call) and ast.unparse(n.right) == "set()"
+        zero = isinstance(n.right, ast.Constant) and n.right.value == 0 and not isinstance(n.right.value, bool)
+        if (isinstance(n.op, ast.BitOr) and empty_set) or (isinstance(n.op, ast.Add) and zero):
+            return n.left
+        return n
+
+
+def split_gets(table: list[tuple]) -> list[tuple]:
+    """Case-split every row on `k in d` for each `d.get(k, default)` in its outcome (the two spellings of 'missing means default')."""
+    out = []
+    work = list(table)
+    guard = 0
+    while work and guard < 200:
+        guard += 1
+        prem, outcome = work.pop(0)
+        kind, val, finals, eff, iters = outcome
+        texts = [val] + [t for _, t in finals] + list(eff)
+        found = None
+        for t in texts:
+            if not t:
+                continue
+            try:
+                e = ast.parse(t, mode="eval").body
+            except SyntaxError:
+                continue
+            for n in ast.walk(e):
+                if isinstance(n, ast.Call) and isinstance(n.func, ast.Attribute) and n.func.attr == "get" and len(n.args) == 2 and not n.keywords \
+                        and isinstance(n.func.value, (ast.Name, ast.Attribute)):
+                    found = (ast.unparse(n.func.value), ast.unparse(n.args[0]))
+                    break
+            if found:
+                break
+        if not found:
+            out.append((prem, outcome))
+            continue
+        recv, key = found
+        atom = norm.formula(ast.parse(f"{key} in {recv}", mode="eval").body)
+        for present in (True, False):
+            p2 = norm.conj([prem, atom if present else norm.neg(atom)])
+            if not norm.satisfiable(p2):
+                continue
+
+            def tr(t):
+                if not t:
+                    return t
+                try:
+                    e = ast.parse(t, mode="eval").body
+                except SyntaxError:
+                    return t
+                e = _Simplify().visit(_GetSplit(recv, key, present).visit(e))
+                return ast.unparse(ast.fix_missing_locations(e))
+            work.append((p2, (kind, tr(val), tuple((k, tr(t)) for k, t in finals), tuple(tr(t) for t in eff), iters)))
+    return out + work
